@@ -347,6 +347,93 @@ pub fn run(args: &ShardArgs, rep: &mut Report) {
 		}
 	}
 
+	// (7) every raw 16-bit wait status: the conversion is total (never panics), and whatever the other bits are an
+	// exited status keeps its code and a signalled one keeps its signal (classification by the POSIX macros,
+	// written out here independently of std's accessors)
+	let mut raw_exited = 0u64;
+	let mut raw_signalled = 0u64;
+	let mut raw_other = 0u64;
+	for raw in 0..=0xffffi32 {
+		rep.eval();
+		let low = raw & 0x7f;
+		let r = std::panic::catch_unwind(|| ProcessEnd::from(ExitStatus::from_raw(raw)));
+		let pe = match r {
+			Ok(pe) => pe,
+			Err(_) => {
+				rep.violation(
+					"C19/exit-status/panic",
+					&format!("converting the raw wait status {raw:#06x} panics"),
+					json!({"raw": raw}),
+				);
+				continue;
+			}
+		};
+		if low == 0 {
+			raw_exited += 1;
+			let code = (raw >> 8) & 0xff;
+			let ok = if code == 0 {
+				pe == ProcessEnd::Success
+			} else {
+				matches!(pe, ProcessEnd::ExitError(c) if c.get() == i64::from(code))
+			};
+			if !ok {
+				rep.violation(
+					"C19/exit-code",
+					&format!("raw status {raw:#06x} (exit code {code}) converts to {pe:?}"),
+					json!({"raw": raw}),
+				);
+			}
+		} else if low != 0x7f {
+			raw_signalled += 1;
+			if raw >> 8 == 0 {
+				rep.nontrivial(hash_str(&format!("rawsig:{raw}")));
+			}
+			let got = match pe {
+				ProcessEnd::ExitSignal(Signal::Custom(n)) => Some(n),
+				ProcessEnd::ExitSignal(s) => os_number(s),
+				_ => None,
+			};
+			if got != Some(low) {
+				rep.violation(
+					"C19/term-signal",
+					&format!("raw status {raw:#06x} (killed by signal {low}) converts to {pe:?}"),
+					json!({"raw": raw}),
+				);
+			}
+		} else {
+			// stopped / continued: not in the statement; only totality is judged
+			raw_other += 1;
+		}
+	}
+	rep.count("raw_wait_statuses_exited", raw_exited);
+	rep.count("raw_wait_statuses_signalled", raw_signalled);
+	rep.count("raw_wait_statuses_stopped_or_continued_totality_only", raw_other);
+
+	// (8) numeric spellings the platform table does not know (0, negative, 32..=130, huge): either refused or the same
+	// number comes back — never another signal
+	let mut odd_numbers = 0u64;
+	for n in (-3i64..=130).chain([255, 256, 65536, i64::from(i32::MAX), i64::from(i32::MAX) + 1, i64::from(i32::MIN)]) {
+		for s in [n.to_string(), format!("+{n}"), format!("0{n}"), format!(" {n}"), format!("SIG{n}")] {
+			rep.eval();
+			odd_numbers += 1;
+			rep.nontrivial(hash_str(&format!("num:{s}")));
+			if let Ok(sig) = Signal::from_str(&s) {
+				let back = match sig {
+					Signal::Custom(k) => Some(i64::from(k)),
+					other => os_number(other).map(i64::from),
+				};
+				if back != Some(n) {
+					rep.violation(
+						"C19/number-parse",
+						&format!("{s:?} parses to {sig:?}, which is OS signal {back:?}"),
+						json!({"input": s}),
+					);
+				}
+			}
+		}
+	}
+	rep.count("numeric_spellings_outside_the_platform_table", odd_numbers);
+
 	rep.sample(json!({"display_roundtrip": {"signal": "Custom(17)", "display": Signal::Custom(17).to_string(),
 		"parsed": format!("{:?}", Signal::from_str(&Signal::Custom(17).to_string()))}}));
 	rep.sample(json!({"name_parse": {"input": "sTop", "parsed": format!("{:?}", Signal::from_str("sTop")),
